@@ -29,6 +29,7 @@ From LCP Require Import Crypto.AesCtrRef.
 From LCP Require Export Crypto.AesCtrRefProofs.
 Import ListNotations.
 Local Open Scope N_scope.
+Local Open Scope res_scope.
 
 Ltac Zify.zify_post_hook ::= Z.to_euclidean_division_equations.
 
@@ -44,7 +45,7 @@ Ltac data := cbv [ty_bytectr ty_pblk gen_assert gen_pblk_idx gen_stmts gen_wrap_
 Ltac ev := cbv [eval run assign get lookup set var locals env_app fst snd valN valZ argN def
                 V_BYTECTR V_BUFLEN V_INOFF V_OUTOFF V_NBYTES V_BYTEMOD V_PBLKB
                 id_eqb peqb uac promote arith shift fit signed cvt conv cty_eqb modulus half width is_cmp
-                body_parts the_memcpy drop_vec forallb is_assign is_vec].
+                body_parts the_memcpy drop_vec all_assign].
 (* closed numerals *)
 Ltac closedP p := lazymatch p with xH => idtac | xO ?q => closedP q | xI ?q => closedP q | _ => fail end.
 Ltac closedZ t := lazymatch t with Z0 => idtac | Zpos ?p => closedP p | Zneg ?p => closedP p | _ => fail end.
@@ -63,7 +64,60 @@ Ltac fold_closed :=
           | |- context [N.to_nat (Npos ?p)] =>
             closedP p; let r := eval vm_compute in (N.to_nat (Npos p)) in change (N.to_nat (Npos p)) with r
           end)).
-Ltac evaluate := data; ev; fold_closed.
+
+(* equal data constructors / list and byte functions: compare the arguments; arithmetic (and boolean
+   comparisons of numbers) is left whole for lia *)
+Ltac head_of t := lazymatch t with ?f _ => head_of f | _ => t end.
+Ltac is_arith h :=
+  lazymatch h with
+  | Z.add => idtac | Z.sub => idtac | Z.mul => idtac | Z.modulo => idtac | Z.div => idtac | Z.opp => idtac
+  | Z.quot => idtac | Z.rem => idtac | Z.land => idtac | Z.lor => idtac | Z.lxor => idtac | Z.lnot => idtac
+  | Z.shiftl => idtac | Z.shiftr => idtac | Z.pow => idtac | Z.of_N => idtac | Z.to_N => idtac
+  | Z.of_nat => idtac | Z.to_nat => idtac | N.of_nat => idtac | N.to_nat => idtac
+  | N.add => idtac | N.sub => idtac | N.mul => idtac | N.modulo => idtac | N.div => idtac
+  | Z.eqb => idtac | Z.leb => idtac | Z.ltb => idtac | N.eqb => idtac | N.leb => idtac | N.ltb => idtac
+  | negb => idtac | andb => idtac | orb => idtac
+  | Z0 => idtac | Zpos => idtac | Zneg => idtac | N0 => idtac | Npos => idtac
+  | _ => fail
+  end.
+Ltac struct_eq :=
+  try reflexivity;
+  lazymatch goal with
+  | |- ?l = _ =>
+    let h := head_of l in
+    tryif is_arith h then idtac else first [progress f_equal; struct_eq | idtac]
+  | |- _ => idtac
+  end.
+(* masks: x & m for a constant m whose set bits are contiguous (bits lo .. hi-1) is
+   ((x mod 2^hi) / 2^lo) * 2^lo; shifts by constants are multiplications / divisions *)
+Lemma land_mask x lo hi : (0 <= lo <= hi)%Z ->
+  Z.land x (Z.shiftl (Z.ones (hi - lo)) lo) = Z.shiftl (Z.shiftr (x mod 2 ^ hi) lo) lo.
+Proof.
+  intros H. apply Z.bits_inj'. intros n Hn. rewrite Z.land_spec.
+  destruct (Z.lt_ge_cases n lo).
+  - rewrite !Z.shiftl_spec_low by lia. apply andb_false_r.
+  - rewrite !Z.shiftl_spec by lia. rewrite Z.shiftr_spec by lia. replace (n - lo + lo)%Z with n by lia.
+    destruct (Z.lt_ge_cases n hi).
+    + rewrite Z.ones_spec_low by lia. rewrite Z.mod_pow2_bits_low by lia. apply andb_true_r.
+    + rewrite Z.ones_spec_high by lia. rewrite Z.mod_pow2_bits_high by lia. apply andb_false_r.
+Qed.
+
+Fixpoint ptz (p : positive) : Z := match p with xO q => (1 + ptz q)%Z | _ => 0%Z end.
+
+Ltac mask_norm :=
+  repeat match goal with
+  | |- context [Z.land (Zpos ?p) ?x] =>
+    closedP p; lazymatch x with Zpos _ => fail | _ => rewrite (Z.land_comm (Zpos p) x) end
+  | |- context [Z.land ?x (Zpos ?p)] =>
+    closedP p;
+    let lo := eval vm_compute in (ptz p) in
+    let hi := eval vm_compute in (Z.log2 (Zpos p) + 1)%Z in
+    replace (Zpos p) with (Z.shiftl (Z.ones (hi - lo)) lo) by (vm_compute; reflexivity);
+    rewrite (land_mask x lo hi) by lia
+  end;
+  rewrite ?Z.shiftr_div_pow2, ?Z.shiftl_mul_pow2 by lia.
+Ltac evaluate := data; ev; fold_closed; mask_norm; fold_closed.
+Ltac arith_eq := struct_eq; try lia.
 
 Lemma guard_ok {A} ok (r : res A) : ok = true -> guard ok r = r.
 Proof. intros ->. reflexivity. Qed.
@@ -95,7 +149,7 @@ Section Bridge.
     use s inp bl n m = Ok (Ref.use s inp bl n m).
   Proof.
     intros H1 H2. unfold use, Ref.use, two64 in *. evaluate.
-    guards. repeat f_equal; lia.
+    guards. arith_eq.
   Qed.
 
   Lemma Ref_use_binv s inp bl n m : n <= bl -> binv s bl ->
@@ -114,8 +168,8 @@ Section Bridge.
     destruct ((nth 15 (pblk s) 0 + 1) mod 256 =? 0) eqn:Hw;
       destruct (bytectr s mod 16 =? 0) eqn:Hm; cbn [negb];
       evaluate; rewrite ?nonzero_b2z; repeat decide_if; ev; guards; try reflexivity.
-    - rewrite Hsk, app_nil_r. repeat f_equal; lia.
-    - repeat f_equal; lia.
+    - rewrite Hsk, app_nil_r. arith_eq.
+    - arith_eq.
   Qed.
 
   Lemma Ref_generate_binv s s1 bl : Ref.generate E s = Ok s1 -> binv s bl -> binv s1 bl.
@@ -137,7 +191,7 @@ Section Bridge.
     destruct (bytectr s mod 16 =? 0) eqn:Hm; cbn [negb];
       [|destruct (bytectr s mod 16 + bl <=? 16) eqn:Hfit].
     all: evaluate; rewrite ?nonzero_b2z; repeat decide_if; ev; fold_closed; guards; try reflexivity.
-    all: rewrite use_eq by (unfold two64; lia); cbn [bind]; repeat f_equal; lia.
+    all: rewrite use_eq by (unfold two64; lia); cbn [bind]; arith_eq.
   Qed.
 
   Lemma Ref_pre_whole_binv s inp bl : binv s bl ->
@@ -231,7 +285,7 @@ Section Bridge.
   (* the regenerated statements of the loop, evaluated on those variables *)
   Lemma wb_bexpr_eval b bl io oo c nb i :
     eval (wb_env b bl io oo c nb i) wb_bexpr = (U64, Z.of_N (c mod two64), true).
-  Proof. unfold wb_env, wb_bexpr, two64. evaluate. repeat f_equal; lia. Qed.
+  Proof. unfold wb_env, wb_bexpr, two64. evaluate. arith_eq. Qed.
 
   Lemma wb_reset b bl io oo c nb i :
     set (wb_env b bl io oo c nb i) V_INOFF U64 0 = (wb_env b bl 0 oo c nb i, true) /\
@@ -240,7 +294,7 @@ Section Bridge.
 
   Lemma wb_scalars_run b bl c nb i : 1 <= i < two64 ->
     run (wb_env b bl 0 0 c nb i) wb_scalars = (wb_env b bl 16 16 ((c + 1) mod two64) nb (i - 1), true).
-  Proof. intros H. unfold wb_env, wb_scalars, two64 in *. evaluate. repeat f_equal; lia. Qed.
+  Proof. intros H. unfold wb_env, wb_scalars, two64 in *. evaluate. arith_eq. Qed.
 
   Lemma wb_offsets b bl c nb i :
     get (wb_env b bl 16 16 c nb i) V_INOFF = (U64, 16%Z, true) /\
@@ -249,7 +303,27 @@ Section Bridge.
 
   Lemma wb_cond_eval b bl io oo c nb i : i < two64 ->
     eval (wb_env b bl io oo c nb i) wb_cond = (S32, b2z (0 <? i), true).
-  Proof. intros H. unfold wb_env, two64 in *. evaluate. repeat f_equal; lia. Qed.
+  Proof. intros H. unfold wb_env, two64 in *. evaluate. arith_eq. Qed.
+
+  (* one iteration *)
+  Lemma ni_loop_step nonce fuel b bl io oo c nb i inp : 1 <= i < two64 -> (16 <= length inp)%nat ->
+    ni_loop E (S fuel) nonce wb_bexpr wb_scalars (wb_env b bl io oo c nb i) inp =
+    let arr := be64 (c mod two64) in
+    let o := xor_list (firstn 16 inp) (E (mm_unpacklo_epi64 nonce (load_si64 arr))) in
+    if 0 <? i - 1 then
+      let* (e2, o', rest, arr') :=
+        ni_loop E fuel nonce wb_bexpr wb_scalars (wb_env b bl 16 16 ((c + 1) mod two64) nb (i - 1)) (skipn 16 inp) in
+      Ok (e2, o ++ o', rest, arr')
+    else Ok (wb_env b bl 16 16 ((c + 1) mod two64) nb (i - 1), o, skipn 16 inp, arr).
+  Proof.
+    intros Hi Hlen. cbn [ni_loop]. destruct (skipn15_cons inp Hlen) as (x & r & ->).
+    rewrite wb_bexpr_eval. destruct (wb_reset b bl io oo c nb i) as [-> H2].
+    cbn [fst snd]. rewrite H2. cbn [fst snd]. clear H2.
+    rewrite wb_scalars_run by exact Hi. cbn [fst snd].
+    destruct (wb_offsets b bl ((c + 1) mod two64) nb (i - 1)) as [-> ->].
+    rewrite wb_cond_eval by lia. cbv [def valZ valN fst snd]. rewrite nonzero_b2z.
+    rewrite N2Z.id. reflexivity.
+  Qed.
 
   Lemma ni_loop_eq nonce : forall n fuel b bl io oo c nb inp,
     (S n <= fuel)%nat -> (16 * S n <= length inp)%nat -> N.of_nat (S n) < two64 ->
@@ -258,13 +332,307 @@ Section Bridge.
     Ok (wb_env b bl 16 16 c' nb 0, o, rest, arr).
   Proof.
     induction n as [|n IH]; intros fuel b bl io oo c nb inp Hfuel Hlen Hn;
-      (destruct fuel as [|fuel]; [lia|]); cbn [ni_loop Ref.bulk];
-      destruct (skipn15_cons inp ltac:(lia)) as (x & r & ->);
-      rewrite wb_bexpr_eval; destruct (wb_reset b bl io oo c nb (N.of_nat (S n))) as [-> H2];
-      cbn [fst snd]; rewrite H2; cbn [fst snd]; clear H2;
-      rewrite wb_scalars_run by lia; cbn [fst snd];
-      destruct (wb_offsets b bl ((c + 1) mod two64) nb (N.of_nat (S n) - 1)) as [-> ->];
-      rewrite wb_cond_eval by lia; cbv [def valZ valN fst snd]; rewrite nonzero_b2z.
-    - Show.
-  Abort.
+      (destruct fuel as [|fuel]; [lia|]); rewrite ni_loop_step by lia; cbn [Ref.bulk]; cbv zeta.
+    - change (N.of_nat 1 - 1) with 0. change (0 <? 0) with false. cbv iota.
+      replace ((c mod two64 + 1) mod two64) with ((c + 1) mod two64) by (unfold two64; lia). reflexivity.
+    - replace (0 <? N.of_nat (S (S n)) - 1) with true by lia.
+      replace (N.of_nat (S (S n)) - 1) with (N.of_nat (S n)) by lia.
+      rewrite IH by (try rewrite skipn_length; lia).
+      replace (((c + 1) mod two64) mod two64) with ((c mod two64 + 1) mod two64) by (unfold two64; lia).
+      destruct (Ref.bulk E n nonce ((c mod two64 + 1) mod two64) (skipn 16 inp)) as [[[o' rest] c'] arr'] eqn:Hbk.
+      reflexivity.
+  Qed.
+
+  (* ---------------------------------------------------------------- crypto_aesctr_aesni_stream_wholeblocks *)
+  Lemma wb_prologue_run b bl : b < two64 -> bl < two64 ->
+    run (env_app [var V_BYTECTR ty_bytectr b; var V_BUFLEN wb_ty_buflen bl; var V_INOFF U64 0; var V_OUTOFF U64 0]
+                 (locals wb_decls)) wb_prologue =
+    (wb_env b bl 0 0 (b / 16) (bl / 16) (bl / 16), true).
+  Proof. intros Hb Hl. unfold wb_env, two64 in *. evaluate. arith_eq. Qed.
+
+  (* THE lemma about the end-of-loop bookkeeping: for every *buflen below 2^64 (num_blocks being
+     *buflen / 16) the regenerated statements subtract 16 * num_blocks from *buflen and add it to
+     stream->bytectr (mod 2^64) *)
+  Lemma wb_epilogue_run b bl c nb : nb = bl / 16 -> bl < two64 ->
+    run (wb_env b bl 16 16 c nb 0) wb_epilogue =
+    (wb_env ((b + 16 * nb) mod two64) (bl - 16 * nb) 16 16 c nb 0, true).
+  Proof. intros H1 H2. unfold wb_env, two64 in *. evaluate. arith_eq. Qed.
+
+  Lemma wb_results b bl io oo c nb i : b < two64 -> bl < two64 ->
+    get (wb_env b bl io oo c nb i) V_BYTECTR = (U64, Z.of_N b, true) /\
+    get (wb_env b bl io oo c nb i) V_BUFLEN = (U64, Z.of_N bl, true).
+  Proof. intros H1 H2. unfold wb_env, two64 in *. evaluate. split; arith_eq. Qed.
+
+  Lemma Ref_bulk_arr_length nonce : forall n c inp,
+    let '(_, _, _, arr) := Ref.bulk E n nonce c inp in length arr = 8%nat.
+  Proof.
+    induction n as [|n IH]; intros c inp; cbn [Ref.bulk]; [reflexivity|].
+    specialize (IH ((c + 1) mod two64) (skipn 16 inp)).
+    destruct (Ref.bulk E n nonce ((c + 1) mod two64) (skipn 16 inp)) as [[[o r] c'] a]. exact IH.
+  Qed.
+
+  Lemma wholeblocks_aesni_eq s inp bl : bl = N.of_nat (length inp) -> 16 <= bl -> binv s bl ->
+    wholeblocks_aesni E s inp bl = Ref.wholeblocks_aesni E s inp bl.
+  Proof.
+    intros Hbl Hge [Hb Hp]. unfold wholeblocks_aesni, Ref.wholeblocks_aesni.
+    rewrite wb_body_shape, wb_epilogue_memcpy.
+    rewrite wb_prologue_run by lia. cbn [fst snd guard].
+    destruct (N.to_nat (bl / 16)) as [|n] eqn:Hn; [unfold two64 in *; lia|].
+    replace (bl / 16) with (N.of_nat (S n)) by lia.
+    rewrite ni_loop_eq by (unfold two64 in *; lia).
+    rewrite (N.mod_small (bytectr s / 16)) by (unfold two64 in *; lia).
+    pose proof (Ref_bulk_arr_length (load_si64 (pblk s)) n (bytectr s / 16) inp) as Harr.
+    destruct (Ref.bulk E n (load_si64 (pblk s)) (bytectr s / 16) inp) as [[[o rest] c'] arr].
+    cbn [bind]. rewrite wb_epilogue_run by (unfold two64 in *; lia). cbn [fst snd].
+    destruct (wb_results ((bytectr s + 16 * N.of_nat (S n)) mod two64) (bl - 16 * N.of_nat (S n)) 16 16 c'
+                (N.of_nat (S n)) 0) as [-> ->]; [unfold two64; lia | unfold two64 in *; lia |].
+    cbv [def valN valZ fst snd]. cbn [andb guard]. rewrite !N2Z.id.
+    change (N.to_nat 8) with 8%nat. change (8 + 8)%nat with 16%nat.
+    rewrite (skipn_all2 (pblk s)) by lia. rewrite app_nil_r.
+    rewrite (firstn_all2 arr) by lia. reflexivity.
+  Qed.
+
+  (* ---------------------------------------------------------------- crypto_aesctr_aesni_stream *)
+  Lemma Ref_wholeblocks_binv s inp bl s' o rest bl' : 16 <= bl ->
+    Ref.wholeblocks_aesni E s inp bl = Ok (s', o, rest, bl') -> binv s bl -> binv s' bl'.
+  Proof.
+    intros Hge H [Hb Hp]. unfold Ref.wholeblocks_aesni in H.
+    destruct (N.to_nat (bl / 16)) as [|n] eqn:Hn; [discriminate|].
+    pose proof (Ref_bulk_arr_length (load_si64 (pblk s)) n (bytectr s / 16) inp) as Harr.
+    destruct (Ref.bulk E n (load_si64 (pblk s)) (bytectr s / 16) inp) as [[[o2 rest2] c'] arr].
+    remember (firstn 8 (pblk s) ++ arr) as p' eqn:Hp'.
+    injection H as <- _ _ <-. unfold binv, two64 in *. cbn [bytectr pblk]. split; [lia|].
+    subst p'. rewrite app_length, firstn_length, Harr. lia.
+  Qed.
+
+  Theorem stream_aesni_eq s inp : binv s (N.of_nat (length inp)) ->
+    stream_aesni E s inp = Ref.stream_aesni E s inp.
+  Proof.
+    intros Hinv. unfold stream_aesni, Ref.stream_aesni.
+    rewrite pre_whole_eq by apply Hinv. cbn [bind].
+    pose proof (Ref_pre_whole_binv s inp _ Hinv) as Hinv1.
+    assert (Hlen : let '(_, _, rest, bl, _) := Ref.pre_whole s inp (N.of_nat (length inp)) in
+                   bl = N.of_nat (length rest)).
+    { unfold Ref.pre_whole, Ref.use.
+      destruct (negb (bytectr s mod 16 =? 0)); [destruct (bytectr s mod 16 + N.of_nat (length inp) <=? 16) eqn:Hf|];
+        try rewrite skipn_length; lia. }
+    destruct (Ref.pre_whole s inp (N.of_nat (length inp))) as [[[[s1 o1] rest] bl] done].
+    destruct done; [reflexivity|].
+    pose proof Hinv1 as [Hb1 Hp1]. unfold two64 in Hb1.
+    assert (Hc : eval [var V_BYTECTR ty_bytectr (bytectr s1); var V_BUFLEN ni_ty_buflen bl] ni_cond
+                 = (S32, b2z (16 <=? bl), true)).
+    { evaluate. arith_eq. }
+    rewrite Hc. cbv [def valZ fst snd]. cbn [guard]. rewrite nonzero_b2z.
+    destruct (16 <=? bl) eqn:Hge.
+    - apply N.leb_le in Hge. rewrite (wholeblocks_aesni_eq s1 rest bl Hlen Hge Hinv1).
+      destruct (Ref.wholeblocks_aesni E s1 rest bl) as [[[[s2 o2] rest2] bl2]| | |] eqn:Hw; cbn [bind]; try reflexivity.
+      rewrite (post_whole_eq s2 rest2 bl2 (Ref_wholeblocks_binv _ _ _ _ _ _ _ Hge Hw Hinv1)). reflexivity.
+    - cbn [bind]. rewrite (post_whole_eq s1 rest bl Hinv1). reflexivity.
+  Qed.
+
+  Theorem stream_cfg_eq hw s inp : binv s (N.of_nat (length inp)) ->
+    stream_cfg E hw s inp = Ref.stream_cfg E hw s inp.
+  Proof.
+    intros Hinv. unfold stream_cfg, Ref.stream_cfg.
+    destruct ((16 <=? N.of_nat (length inp)) && hw); [apply stream_aesni_eq | apply stream_eq]; exact Hinv.
+  Qed.
 End Bridge.
+
+(* the bridging theorems with their hypothesis written out (these are stated in Properties_C03_aes.v) *)
+Theorem stream_cfg_eq_reference : forall (E : list N -> list N) hw s inp,
+  bytectr s + N.of_nat (length inp) < two64 -> length (pblk s) = 16%nat ->
+  stream_cfg E hw s inp = Ref.stream_cfg E hw s inp.
+Proof. intros E hw s inp H1 H2. apply stream_cfg_eq. split; assumption. Qed.
+
+Theorem wholeblocks_aesni_eq_reference : forall (E : list N -> list N) s inp,
+  16 <= N.of_nat (length inp) -> bytectr s + N.of_nat (length inp) < two64 -> length (pblk s) = 16%nat ->
+  wholeblocks_aesni E s inp (N.of_nat (length inp)) = Ref.wholeblocks_aesni E s inp (N.of_nat (length inp)).
+Proof. intros E s inp H0 H1 H2. apply wholeblocks_aesni_eq; [reflexivity | exact H0 | split; assumption]. Qed.
+
+(* ================================================================== Part 2: the theorems, for the model *)
+Section Proofs.
+  Variable E : list N -> list N.
+  Hypothesis E_len : forall b, length (E b) = 16%nat.
+
+  Section Nonce.
+  Variable nonce : N.
+  Variable start : N.
+  Hypothesis start_aligned : start mod 16 = 0.
+
+  (* the invariant gives what the bridging lemmas need *)
+  Lemma ctr_inv_binv total s len :
+    ctr_inv E nonce start total s -> total + len < two64 -> binv s len.
+  Proof.
+    intros (_ & _ & Hb & _ & _ & Hp & _) Hlt. unfold binv. rewrite Hb. split; [exact Hlt | exact Hp].
+  Qed.
+
+  (* the portable path *)
+  Theorem stream_spec total s inp :
+    ctr_inv E nonce start total s -> total + N.of_nat (length inp) < two64 ->
+    exists s', stream E s inp = Ok (s', xor_list inp (ks_range E nonce total (length inp))) /\
+               ctr_inv E nonce start (total + N.of_nat (length inp)) s'.
+  Proof.
+    intros Hinv Hbound. rewrite stream_eq by (exact (ctr_inv_binv _ _ _ Hinv Hbound)).
+    exact (stream_spec_ref E E_len nonce start start_aligned total s inp Hinv Hbound).
+  Qed.
+
+  (* the AES-NI bulk path *)
+  Theorem stream_aesni_spec total s inp :
+    ctr_inv E nonce start total s -> total + N.of_nat (length inp) < two64 ->
+    exists s', stream_aesni E s inp = Ok (s', xor_list inp (ks_range E nonce total (length inp))) /\
+               ctr_inv E nonce start (total + N.of_nat (length inp)) s'.
+  Proof.
+    intros Hinv Hbound. rewrite stream_aesni_eq by (exact (ctr_inv_binv _ _ _ Hinv Hbound)).
+    exact (stream_aesni_spec_ref E E_len nonce start start_aligned total s inp Hinv Hbound).
+  Qed.
+
+  (* M1, preservation: crypto_aesctr_stream in either build configuration *)
+  Theorem stream_cfg_spec hw total s inp :
+    ctr_inv E nonce start total s -> total + N.of_nat (length inp) < two64 ->
+    exists s', stream_cfg E hw s inp = Ok (s', xor_list inp (ks_range E nonce total (length inp))) /\
+               ctr_inv E nonce start (total + N.of_nat (length inp)) s'.
+  Proof.
+    intros Hinv Hbound. rewrite stream_cfg_eq by (exact (ctr_inv_binv _ _ _ Hinv Hbound)).
+    exact (stream_cfg_spec_ref E E_len nonce start start_aligned hw total s inp Hinv Hbound).
+  Qed.
+
+  (* C03-M2: from a state satisfying the invariant, the AES-NI path and the portable path write
+     the same bytes and leave states that no later call can tell apart (the AES-NI bulk path does
+     not refresh buf, which is dead at a block boundary) *)
+  Theorem stream_aesni_eq_stream total s inp :
+    ctr_inv E nonce start total s -> total + N.of_nat (length inp) < two64 ->
+    exists s1 s2 out,
+      stream_aesni E s inp = Ok (s1, out) /\ stream E s inp = Ok (s2, out) /\
+      st_obs_eq s1 s2 /\
+      ctr_inv E nonce start (total + N.of_nat (length inp)) s1 /\
+      ctr_inv E nonce start (total + N.of_nat (length inp)) s2.
+  Proof.
+    intros Hinv Hbound.
+    rewrite stream_aesni_eq, stream_eq by (exact (ctr_inv_binv _ _ _ Hinv Hbound)).
+    exact (stream_aesni_eq_stream_ref E E_len nonce start start_aligned total s inp Hinv Hbound).
+  Qed.
+
+  (* ---------------------------------------------------------------- sequences of calls (M2) *)
+  Lemma stream_all_spec hw : forall chunks total s,
+    ctr_inv E nonce start total s -> total + N.of_nat (length (concat chunks)) < two64 ->
+    exists s' outs,
+      stream_all E hw s chunks = Ok (s', outs) /\
+      concat outs = xor_list (concat chunks) (ks_range E nonce total (length (concat chunks))) /\
+      map (@length N) outs = map (@length N) chunks /\
+      ctr_inv E nonce start (total + N.of_nat (length (concat chunks))) s'.
+  Proof.
+    induction chunks as [|c chunks IH]; intros total s Hinv Hbound.
+    - exists s, []. cbn. rewrite N.add_0_r. splits; try reflexivity. exact Hinv.
+    - cbn [concat] in *. rewrite app_length in *.
+      destruct (stream_cfg_spec hw total s c Hinv) as (s1 & Hs1 & Hinv1); [lia|].
+      destruct (IH (total + N.of_nat (length c)) s1 Hinv1) as (s2 & outs & Hs2 & Hcat & Hlens & Hinv2); [lia|].
+      cbn [stream_all]. rewrite Hs1. cbn [bind]. rewrite Hs2. cbn [bind].
+      eexists. eexists. split; [reflexivity|].
+      split; [|split].
+      + cbn [concat]. rewrite Hcat, ks_range_app.
+        rewrite xor_list_app by (rewrite ks_range_length; reflexivity). reflexivity.
+      + cbn [map]. rewrite Hlens. f_equal. apply xor_list_length. rewrite ks_range_length. lia.
+      + replace (total + N.of_nat (length c + length (concat chunks)))
+          with (total + N.of_nat (length c) + N.of_nat (length (concat chunks))) by lia.
+        exact Hinv2.
+  Qed.
+  End Nonce.
+
+  (* M2: for every nonce, every prior contents of the stream object and every sequence of calls,
+     the bytes written are ctr_spec of the concatenated input (and each call writes as many bytes
+     as it was given), in either build configuration *)
+  Theorem ctr_stream_correct : forall hw nonce any chunks,
+    st_wf any -> N.of_nat (length (concat chunks)) < two64 ->
+    exists s' outs,
+      stream_all E hw (init2 15 255 nonce any) chunks = Ok (s', outs) /\
+      concat outs = ctr_spec E nonce (concat chunks) /\
+      map (@length N) outs = map (@length N) chunks.
+  Proof.
+    intros hw nonce any chunks Hwf Hbound.
+    destruct (stream_all_spec nonce 0 eq_refl hw chunks 0 (init2 15 255 nonce any) (init2_inv E nonce any Hwf))
+      as (s' & outs & Hs & Hcat & Hlens & _); [lia|].
+    exists s', outs. split; [exact Hs|]. split; [|exact Hlens].
+    rewrite Hcat. symmetry. apply ctr_spec_as_range; exact E_len.
+  Qed.
+
+  (* the same from a stream positioned at block B by the harness's white-box seek: the bytes are
+     the spec's keystream from block B on (this is what the seek cases of the correspondence run
+     are compared with) *)
+  Theorem ctr_seek_stream_correct : forall hw nonce B any chunks,
+    st_wf any -> 16 * B + N.of_nat (length (concat chunks)) < two64 ->
+    exists s' outs,
+      stream_all E hw (seek (16 * B) (init2 15 255 nonce any)) chunks = Ok (s', outs) /\
+      concat outs = ctr_spec_from E nonce B (concat chunks) /\
+      map (@length N) outs = map (@length N) chunks.
+  Proof.
+    intros hw nonce B any chunks Hwf Hbound.
+    assert (Hal : (16 * B) mod 16 = 0) by lia.
+    destruct (stream_all_spec nonce (16 * B) Hal hw chunks (16 * B) _ (seek_inv E nonce B any Hwf ltac:(lia)))
+      as (s' & outs & Hs & Hcat & Hlens & _); [lia|].
+    exists s', outs. split; [exact Hs|]. split; [|exact Hlens].
+    rewrite Hcat. symmetry. apply ctr_spec_from_as_range; exact E_len.
+  Qed.
+
+  (* how the data is cut into calls does not matter *)
+  Corollary ctr_partition_independent : forall hw1 hw2 nonce any1 any2 chunks1 chunks2,
+    st_wf any1 -> st_wf any2 -> concat chunks1 = concat chunks2 ->
+    N.of_nat (length (concat chunks1)) < two64 ->
+    exists s1 outs1 s2 outs2,
+      stream_all E hw1 (init2 15 255 nonce any1) chunks1 = Ok (s1, outs1) /\
+      stream_all E hw2 (init2 15 255 nonce any2) chunks2 = Ok (s2, outs2) /\
+      concat outs1 = concat outs2.
+  Proof.
+    intros hw1 hw2 nonce any1 any2 chunks1 chunks2 Hw1 Hw2 Hcat Hbound.
+    destruct (ctr_stream_correct hw1 nonce any1 chunks1 Hw1 Hbound) as (s1 & o1 & H1 & Hc1 & _).
+    rewrite Hcat in Hbound.
+    destruct (ctr_stream_correct hw2 nonce any2 chunks2 Hw2 Hbound) as (s2 & o2 & H2 & Hc2 & _).
+    exists s1, o1, s2, o2. split; [exact H1|]. split; [exact H2|]. rewrite Hc1, Hc2, Hcat. reflexivity.
+  Qed.
+
+  (* encrypting twice (fresh init with the same nonce, any partitions) restores the input *)
+  Lemma ctr_spec_involutive nonce data : ctr_spec E nonce (ctr_spec E nonce data) = data.
+  Proof.
+    rewrite (ctr_spec_as_range E E_len nonce (ctr_spec E nonce data)), (ctr_spec_length E E_len).
+    rewrite (ctr_spec_as_range E E_len). apply xor_list_involutive. rewrite ks_range_length. reflexivity.
+  Qed.
+
+  Corollary ctr_involutive : forall hw1 hw2 nonce any1 any2 chunks1 chunks2 s1 outs1,
+    st_wf any1 -> st_wf any2 -> N.of_nat (length (concat chunks1)) < two64 ->
+    stream_all E hw1 (init2 15 255 nonce any1) chunks1 = Ok (s1, outs1) ->
+    concat chunks2 = concat outs1 ->
+    exists s2 outs2,
+      stream_all E hw2 (init2 15 255 nonce any2) chunks2 = Ok (s2, outs2) /\
+      concat outs2 = concat chunks1.
+  Proof.
+    intros hw1 hw2 nonce any1 any2 chunks1 chunks2 s1 outs1 Hw1 Hw2 Hbound Hrun Hcat.
+    destruct (ctr_stream_correct hw1 nonce any1 chunks1 Hw1 Hbound) as (s1' & o1 & H1 & Hc1 & _).
+    rewrite Hrun in H1. inversion H1; subst s1' o1.
+    assert (Hb2 : N.of_nat (length (concat chunks2)) < two64).
+    { rewrite Hcat, Hc1, (ctr_spec_length E E_len). exact Hbound. }
+    destruct (ctr_stream_correct hw2 nonce any2 chunks2 Hw2 Hb2) as (s2 & o2 & H2 & Hc2 & _).
+    exists s2, o2. split; [exact H2|]. rewrite Hc2, Hcat, Hc1. apply ctr_spec_involutive.
+  Qed.
+End Proofs.
+
+(* re-initialising a used stream object restarts the keystream: whatever key (block function E1),
+   nonce and history the object has been through, init2 with a nonce - under the same key or under
+   a new one (E2) - makes the following calls produce ctr_spec from position 0 again *)
+Theorem ctr_reinit_restarts :
+  forall (E1 E2 : list N -> list N),
+    (forall b, length (E1 b) = 16%nat) -> (forall b, length (E2 b) = 16%nat) ->
+    forall hw1 hw2 nonce1 nonce2 any history s1 outs1 chunks,
+      st_wf any -> N.of_nat (length (concat history)) < two64 ->
+      stream_all E1 hw1 (init2 15 255 nonce1 any) history = Ok (s1, outs1) ->
+      N.of_nat (length (concat chunks)) < two64 ->
+      exists s2 outs2,
+        stream_all E2 hw2 (init2 15 255 nonce2 s1) chunks = Ok (s2, outs2) /\
+        concat outs2 = ctr_spec E2 nonce2 (concat chunks).
+Proof.
+  intros E1 E2 HE1 HE2 hw1 hw2 nonce1 nonce2 any history s1 outs1 chunks Hwf Hb1 Hrun Hb2.
+  destruct (stream_all_spec E1 HE1 nonce1 0 eq_refl hw1 history 0 (init2 15 255 nonce1 any)
+              (init2_inv E1 nonce1 any Hwf)) as (s1' & o1 & H1 & _ & _ & Hinv1); [lia|].
+  rewrite Hrun in H1. inversion H1; subst s1' o1.
+  apply ctr_inv_wf in Hinv1.
+  destruct (ctr_stream_correct E2 HE2 hw2 nonce2 s1 chunks Hinv1 Hb2) as (s2 & o2 & H2 & Hc2 & _).
+  exists s2, o2. split; assumption.
+Qed.
